@@ -377,11 +377,11 @@ def write_config(repo, cfg, extra=None):
     open(os.path.join(repo, "Monorail.json"), "w").write(json.dumps(d))
     return d
 
-def monorail(repo, *args, env=None, timeout=120, stdin=None, cwd=None):
+def monorail(repo, *args, env=None, timeout=120, stdin=None, cwd=None, prefix=()):
     """Run the real binary with cwd = repository root (or the directory given).  Returns (rc, stdout-json-or-None, stderr-json-or-None, raw)."""
     e = dict(os.environ); e.update(GIT_ENV)
     if env: e.update(env)
-    r = subprocess.run([BIN_MONORAIL, "-f", os.path.join(repo, "Monorail.json")] + list(args), cwd=cwd or repo, env=e,
+    r = subprocess.run(list(prefix) + [BIN_MONORAIL, "-f", os.path.join(repo, "Monorail.json")] + list(args), cwd=cwd or repo, env=e,
                        stdout=subprocess.PIPE, stderr=subprocess.PIPE, timeout=timeout, input=stdin)
     def last_json(b):
         for line in reversed(b.decode("utf-8", "replace").strip().splitlines()):
